@@ -7,6 +7,10 @@ package hist
 // Commit regime: cur(x,t) = latest version of x committed at or before t. The base child of
 // parent version P_i at an index holding x is cur(x,T_i); it must exist and be visible.
 //
+// (A Span history crosses osm.CommitInfoStart: elements before the boundary carry no commit
+// time and follow the stamp rules, elements after it the commit rules; the regime is a
+// property of each parent version / child version, not of the history.)
+//
 // Stamp regime with threshold E: the base child is the visible version nearest to T inside
 // [T-E, T+E], where versions after T count only when they carry the parent's changeset
 // (forward grouping), ties going to the later version; with no candidate in the window it is
@@ -25,14 +29,28 @@ package hist
 // Model evaluates the reference for one history.
 type Model struct {
 	H      *H
-	E      int64 // effective threshold in model ticks (0 in the commit regime)
+	E      int64 // threshold in model ticks that applies at instants without commit information
 	strict []bool
+}
+
+// Pre reports whether an element stamped t carries no commit time (timestamp regime): always in
+// a Stamp history, before the boundary MixSec in a Span history, never in a Commit history.
+func (m *Model) Pre(t int64) bool {
+	return m.H.Regime == Stamp || (m.H.Span && t < m.H.MixSec)
+}
+
+// eAt is the grouping threshold that applies to a parent version stamped T.
+func (m *Model) eAt(T int64) int64 {
+	if m.Pre(T) {
+		return m.E
+	}
+	return 0
 }
 
 // NewModel prepares the reference model of h.
 func NewModel(h *H) *Model {
 	m := &Model{H: h}
-	if h.Regime == Stamp {
+	if h.Regime == Stamp || h.Span {
 		m.E = h.Eps * h.TPS()
 		if h.EpsDefault {
 			m.E = 1800 * h.TPS()
@@ -41,11 +59,9 @@ func NewModel(h *H) *Model {
 	m.strict = make([]bool, len(h.Children))
 	for c := range h.Children {
 		m.strict[c] = true
-		if h.Regime == Stamp {
-			for _, p := range h.Parents {
-				if !m.wellSeparated(c, p.Sec, p.CS) {
-					m.strict[c] = false
-				}
+		for _, p := range h.Parents {
+			if m.Pre(p.Sec) && !m.wellSeparated(c, p.Sec, p.CS) {
+				m.strict[c] = false
 			}
 		}
 	}
@@ -61,7 +77,7 @@ func (m *Model) Lim(i int) (lim int64, ok bool) {
 	if i+1 >= len(m.H.Parents) {
 		return 0, false
 	}
-	return m.H.Parents[i+1].Sec - m.E, true
+	return m.H.Parents[i+1].Sec - m.eAt(m.H.Parents[i+1].Sec), true
 }
 
 func (m *Model) vers(c int) []Ver {
@@ -96,7 +112,7 @@ func (m *Model) latestBefore(c int, t int64) int {
 func (m *Model) window(c int, T int64) []int {
 	var w []int
 	for i, v := range m.vers(c) {
-		if v.Sec >= T-m.E && v.Sec <= T+m.E {
+		if v.Sec >= T-m.eAt(T) && v.Sec <= T+m.eAt(T) {
 			w = append(w, i)
 		}
 	}
@@ -104,8 +120,8 @@ func (m *Model) window(c int, T int64) []int {
 }
 
 // windowClass classifies a window: "empty", "le" (all at or before T), "fwd" (all after T
-// with the parent's changeset), "foreign" (all after T with other changesets), "" (mixture
-// or a deleted version inside).
+// with the parent's changeset), "foreign" (all after T with other changesets), "mix" (a
+// mixture of those, all visible), "" (a deleted version inside).
 func (m *Model) windowClass(c int, T, cs int64) string {
 	w := m.window(c, T)
 	if len(w) == 0 {
@@ -135,7 +151,7 @@ func (m *Model) windowClass(c int, T, cs int64) string {
 	case foreign:
 		return "foreign"
 	}
-	return ""
+	return "mix"
 }
 
 func (m *Model) wellSeparated(c int, T, cs int64) bool { return m.windowClass(c, T, cs) != "" }
@@ -164,14 +180,14 @@ func (m *Model) Base(c, i int) BaseExp {
 
 func (m *Model) baseAt(c int, T, cs int64) BaseExp {
 	vs := m.vers(c)
-	if m.H.Regime == Commit {
+	if !m.Pre(T) {
 		k := m.Cur(c, T)
 		if k >= 0 && vs[k].Visible {
 			return BaseExp{Accept: []int{k}}
 		}
 		return BaseExp{NilOK: true}
 	}
-	bf := m.latestBefore(c, T-m.E)
+	bf := m.latestBefore(c, T-m.eAt(T))
 	prev := func() BaseExp {
 		if bf >= 0 && vs[bf].Visible {
 			return BaseExp{Accept: []int{bf}}
@@ -180,21 +196,30 @@ func (m *Model) baseAt(c int, T, cs int64) BaseExp {
 	}
 	w := m.window(c, T)
 	if m.strict[c] {
-		switch m.windowClass(c, T, cs) {
-		case "empty", "foreign":
-			return prev()
-		case "le":
-			return BaseExp{Accept: []int{w[len(w)-1]}}
-		case "fwd":
-			// nearest to T; among versions sharing that second the later one
-			best := w[0]
-			for _, k := range w {
-				if vs[k].Sec == vs[best].Sec {
-					best = k
-				}
+		// every version inside the window is visible: the documented rule decides. Candidates are
+		// the in-window versions at or before T and the later ones of the parent's changeset; the
+		// one nearest to T wins, among equally near ones the later version; without a candidate
+		// the latest version before the window, if visible.
+		best := -1
+		dist := func(k int) int64 {
+			d := vs[k].Sec - T
+			if d < 0 {
+				d = -d
 			}
-			return BaseExp{Accept: []int{best}}
+			return d
 		}
+		for _, k := range w {
+			if vs[k].Sec > T && vs[k].CS != cs {
+				continue
+			}
+			if best < 0 || dist(k) <= dist(best) {
+				best = k
+			}
+		}
+		if best < 0 {
+			return prev()
+		}
+		return BaseExp{Accept: []int{best}}
 	}
 	// permissive: the version in effect at T when it is visible; when it is deleted or absent
 	// anything defensible; plus every forward-grouped version.
@@ -256,7 +281,7 @@ func (m *Model) Updates(c, i, b, nbObs int) UpdExp {
 		if b < 0 {
 			// no base (only possible with IgnoreInconsistency): nothing is required, later
 			// real versions around [T_i, T_{i+1}) are tolerated
-			if v.Sec >= T-m.E && (!hasNext || v.Sec <= Tn+m.E) && v.Visible {
+			if v.Sec >= T-m.eAt(T) && (!hasNext || v.Sec <= Tn+m.eAt(Tn)) && v.Visible {
 				out.Optional[k] = true
 			}
 			continue
@@ -272,7 +297,7 @@ func (m *Model) Updates(c, i, b, nbObs int) UpdExp {
 				out.DelCertain, out.DelPossible = true, true
 			}
 		case nb >= 0 && k < nb,
-			nb == NextUnknown && v.Sec <= Tn+m.E:
+			nb == NextUnknown && v.Sec <= Tn+m.eAt(Tn):
 			if v.Visible {
 				out.Optional[k] = true
 			} else {
